@@ -694,6 +694,8 @@ class Bits:
             length = len(self)
         if length is None or length == 0:
             raise bitstring.CreationError("A non-zero length must be specified with a uintbe initialiser.")
+        if length % 8 != 0:
+            raise bitstring.CreationError(f"A whole number of bytes is needed for a uintbe initialiser, but the length is {length} bits.")
         self._bitstore = bitstore_helpers.int2bitstore(uintbe, length, False)
 
     def _getuintbe(self) -> int:
@@ -708,6 +710,8 @@ class Bits:
             length = len(self)
         if length is None or length == 0:
             raise bitstring.CreationError("A non-zero length must be specified with a intbe initialiser.")
+        if length % 8 != 0:
+            raise bitstring.CreationError(f"A whole number of bytes is needed for a intbe initialiser, but the length is {length} bits.")
         self._bitstore = bitstore_helpers.int2bitstore(intbe, length, True)
 
     def _getintbe(self) -> int:
@@ -721,6 +725,8 @@ class Bits:
             length = len(self)
         if length is None or length == 0:
             raise bitstring.CreationError("A non-zero length must be specified with a uintle initialiser.")
+        if length % 8 != 0:
+            raise bitstring.CreationError(f"A whole number of bytes is needed for a uintle initialiser, but the length is {length} bits.")
         self._bitstore = bitstore_helpers.intle2bitstore(uintle, length, False)
 
     def _getuintle(self) -> int:
@@ -735,6 +741,8 @@ class Bits:
             length = len(self)
         if length is None or length == 0:
             raise bitstring.CreationError("A non-zero length must be specified with an intle initialiser.")
+        if length % 8 != 0:
+            raise bitstring.CreationError(f"A whole number of bytes is needed for a intle initialiser, but the length is {length} bits.")
         self._bitstore = bitstore_helpers.intle2bitstore(intle, length, True)
 
     def _getintle(self) -> int:
